@@ -278,6 +278,8 @@ pub uninterp spec fn lines_spec(s: Seq<char>) -> Seq<Seq<char>>;
 /// str::split(p) for a non-empty pattern
 pub uninterp spec fn split_spec(s: Seq<char>, p: Seq<char>) -> Seq<Seq<char>>;
 pub uninterp spec fn upper_spec(s: Seq<char>) -> Seq<char>;
+/// str::replace(&str, &str): all non-overlapping matches, left to right (left uninterpreted; only its functionality matters)
+pub uninterp spec fn replace_spec(s: Seq<char>, from: Seq<char>, to: Seq<char>) -> Seq<char>;
 pub uninterp spec fn lower_spec(s: Seq<char>) -> Seq<char>;
 
 pub trait VxPat: Sized {
@@ -360,6 +362,7 @@ pub trait VxStr {
     fn vx_trim_end_matches<'a>(&'a self, c: char) -> (r: &'a str) ensures r@ == trim_end_spec(self.sv(), |x: char| x == c);
     fn vx_trim_start_matches<'a>(&'a self, c: char) -> (r: &'a str) ensures r@ == trim_start_spec(self.sv(), |x: char| x == c);
     fn vx_replace_char(&self, from: char, to: &str) -> (r: String) ensures r@ == replace_char_spec(self.sv(), from, to@);
+    fn vx_replace(&self, from: &str, to: &str) -> (r: String) ensures r@ == replace_spec(self.sv(), from@, to@);
     fn vx_to_uppercase(&self) -> (r: String) ensures r@ == upper_spec(self.sv());
     fn vx_to_lowercase(&self) -> (r: String) ensures r@ == lower_spec(self.sv());
     fn vx_lines<'a>(&'a self) -> (r: Vec<&'a str>)
@@ -407,6 +410,7 @@ impl VxStr for str {
     #[verifier::external_body] fn vx_trim_end_matches<'a>(&'a self, c: char) -> (r: &'a str) { self.trim_end_matches(c) }
     #[verifier::external_body] fn vx_trim_start_matches<'a>(&'a self, c: char) -> (r: &'a str) { self.trim_start_matches(c) }
     #[verifier::external_body] fn vx_replace_char(&self, from: char, to: &str) -> (r: String) { self.replace(from, to) }
+    #[verifier::external_body] fn vx_replace(&self, from: &str, to: &str) -> (r: String) { self.replace(from, to) }
     #[verifier::external_body] fn vx_to_uppercase(&self) -> (r: String) { self.to_uppercase() }
     #[verifier::external_body] fn vx_to_lowercase(&self) -> (r: String) { self.to_lowercase() }
     #[verifier::external_body] fn vx_lines<'a>(&'a self) -> (r: Vec<&'a str>) { self.lines().collect() }
@@ -435,12 +439,29 @@ impl VxSliceStr for Vec<&'static str> {
     #[verifier::external_body] fn vx_join(&self, sep: &str) -> (r: String) { self.join(sep) }
 }
 
+#[verifier::external_body]
+pub fn opt_string_or_empty(o: &Option<String>) -> (r: &str)
+    ensures r@ == (if o.is_some() { o.unwrap()@ } else { Seq::<char>::empty() })
+{ o.as_deref().unwrap_or("") }
 pub open spec fn opt_ref<T>(o: &Option<T>) -> Option<&T> { match o { Some(v) => Some(v), None => None } }
 impl<const N: usize> VxSliceStr for [&'static str; N] {
     open spec fn lits(&self) -> Seq<&'static str> { self@ }
     #[verifier::external_body] fn vx_contains(&self, x: &&str) -> (r: bool) { self.contains(x) }
     #[verifier::external_body] fn vx_join(&self, sep: &str) -> (r: String) { self.join(sep) }
 }
+
+// ---------------------------------------------------------------- format!/push with string arguments = concatenation
+pub trait VxAsStr { spec fn sview(&self) -> Seq<char>; fn vx_str(&self) -> (r: &str) ensures r@ == self.sview(); }
+impl VxAsStr for String { open spec fn sview(&self) -> Seq<char> { self@ } #[verifier::external_body] fn vx_str(&self) -> (r: &str) { self.as_str() } }
+impl VxAsStr for str { open spec fn sview(&self) -> Seq<char> { self@ } #[verifier::external_body] fn vx_str(&self) -> (r: &str) { self } }
+#[verifier::external_body] pub fn cat1(p0: &str) -> (r: String) ensures r@ == p0@ { [p0].concat() }
+#[verifier::external_body] pub fn cat2(p0: &str, p1: &str) -> (r: String) ensures r@ == p0@ + p1@ { [p0, p1].concat() }
+#[verifier::external_body] pub fn cat3(p0: &str, p1: &str, p2: &str) -> (r: String) ensures r@ == p0@ + p1@ + p2@ { [p0, p1, p2].concat() }
+#[verifier::external_body] pub fn cat4(p0: &str, p1: &str, p2: &str, p3: &str) -> (r: String) ensures r@ == p0@ + p1@ + p2@ + p3@ { [p0, p1, p2, p3].concat() }
+#[verifier::external_body] pub fn cat5(p0: &str, p1: &str, p2: &str, p3: &str, p4: &str) -> (r: String) ensures r@ == p0@ + p1@ + p2@ + p3@ + p4@ { [p0, p1, p2, p3, p4].concat() }
+#[verifier::external_body] pub fn cat6(p0: &str, p1: &str, p2: &str, p3: &str, p4: &str, p5: &str) -> (r: String) ensures r@ == p0@ + p1@ + p2@ + p3@ + p4@ + p5@ { [p0, p1, p2, p3, p4, p5].concat() }
+#[verifier::external_body] pub fn cat7(p0: &str, p1: &str, p2: &str, p3: &str, p4: &str, p5: &str, p6: &str) -> (r: String) ensures r@ == p0@ + p1@ + p2@ + p3@ + p4@ + p5@ + p6@ { [p0, p1, p2, p3, p4, p5, p6].concat() }
+#[verifier::external_body] pub fn cat8(p0: &str, p1: &str, p2: &str, p3: &str, p4: &str, p5: &str, p6: &str, p7: &str) -> (r: String) ensures r@ == p0@ + p1@ + p2@ + p3@ + p4@ + p5@ + p6@ + p7@ { [p0, p1, p2, p3, p4, p5, p6, p7].concat() }
 
 // ---------------------------------------------------------------- Vec idioms
 pub trait VxVec<T> {
